@@ -23,7 +23,8 @@ pub struct Case {
     pub with_twin: bool,
 }
 
-const POOL4: [&str; 4] = ["Ca", "Cb", "Cc", "Cd"];
+/// every component struct a conformance module declares ("Ca" is a prefix of "Cab" on purpose)
+const POOL4: [&str; 5] = ["Ca", "Cab", "Cb", "Cc", "Cd"];
 
 /// Constant predicates: truth is fixed by their text.
 pub const TRUE_FORMS: [&str; 3] = ["all()", "not(any())", "all(all())"];
@@ -241,7 +242,7 @@ pub fn emit(thorough: bool, dir: &str, only: Option<&str>, shards: usize, cfgfla
     let always = |_: &str| true;
 
     // ---------------- C05: worlds x systematically strided parameter lists, macros rotated ----------------
-    let pool = ["Ca", "Cb", "Cc"];
+    let pool = ["Ca", "Cab", "Cc"];
     let ws = crate::worlds(&pool, if thorough { 3 } else { 2 });
     let per_world = if thorough { 24 } else { 6 };
     for (wi, archs) in ws.iter().enumerate() {
